@@ -3,7 +3,10 @@
 // one functional constraint (AssignResult2Args = PreprocessConstraint +
 // ComputeBoundsAndType + AddResultVariable) and records what it got: a constant,
 // an existing variable, or a new variable with bounds and type.  No judgement.
+#include <algorithm>
+#include <cmath>
 #include <cstdio>
+#include <functional>
 #include <fstream>
 #include <sstream>
 #include <string>
@@ -44,6 +47,58 @@ template <class VC> static void report(FILE *out, long id, Cvt &cvt, const VC &r
   }
 }
 
+// functions that need reals: the converter's answer plus measured margins at sample points (no judgement:
+// Bounds!TranscBad decides).  margins in units of 1e-6 * max(1,|f|), floor, saturated.
+static long margin(double num, double scale) {
+  if (std::isnan(num)) return -999999999;
+  double m = std::floor(num / (1e-6 * scale));
+  if (m > 999999999.0) return 999999999;
+  if (m < -999999999.0) return -999999999;
+  return (long)m;
+}
+template <class VC> static void report_transc(FILE *out, long id, Cvt &cvt, const VC &r, bool aint,
+                                              const std::function<double(double)> &f) {
+  double lb, ub; bool isint = false; const char *kind;
+  int alias = -1;
+  if (r.is_const()) { kind = "const"; lb = ub = r.get_const(); }
+  else {
+    int v = r.get_var();
+    for (size_t j = 0; j < g_args.size(); ++j) if (g_args[j] == v) alias = (int)j;
+    kind = alias >= 0 ? "alias" : "var";
+    lb = cvt.lb(v); ub = cvt.ub(v); isint = cvt.var_type(v) == var::INTEGER;
+  }
+  // the argument's own domain as it is after the call (the converter may narrow it: log)
+  double xlo = cvt.lb(g_args[0]), xhi = cvt.ub(g_args[0]);
+  std::vector<double> xs;
+  auto add = [&](double x) { if (aint) x = std::round(x); if (std::isfinite(x) && x >= xlo && x <= xhi) xs.push_back(x); };
+  if (std::isfinite(xlo)) { add(xlo); add(xlo + 1e-9 * std::max(1.0, std::fabs(xlo))); add(std::ceil(xlo)); }
+  if (std::isfinite(xhi)) { add(xhi); add(xhi - 1e-9 * std::max(1.0, std::fabs(xhi))); add(std::floor(xhi)); }
+  if (std::isfinite(xlo) && std::isfinite(xhi)) for (int k = 1; k < 8; ++k) add(xlo + (xhi - xlo) * k / 8.0);
+  for (double x : {-1e6, -1000.0, -100.0, -20.0, -10.0, -3.0, -2.0, -1.5, -1.0, -0.75, -0.5, -0.25, -1e-3, -1e-9, 0.0, 1e-9, 1e-3,
+                   0.25, 0.5, 0.75, 1.0, 1.5, 2.0, 3.0, 10.0, 20.0, 100.0, 1000.0, 1e6}) add(x);
+  for (int k = -8; k <= 8; ++k) { add(k * M_PI / 2); add(k * M_PI / 2 + 1e-7); add(k * M_PI / 2 - 1e-7); }
+  std::sort(xs.begin(), xs.end()); xs.erase(std::unique(xs.begin(), xs.end()), xs.end());
+  std::string s = "[";
+  for (size_t i = 0; i < xs.size(); ++i) {
+    double x = xs[i], fv = f(x);
+    bool defd = !std::isnan(fv);
+    double scale = std::max(1.0, std::isfinite(fv) ? std::fabs(fv) : 1.0);
+    double lo_ref = alias >= 0 ? x : lb, hi_ref = alias >= 0 ? x : ub;
+    long mlo = !defd ? 0 : (fv >= lo_ref && std::isinf(fv - lo_ref)) ? 999999999 : margin(fv - lo_ref, scale);
+    long mhi = !defd ? 0 : (hi_ref >= fv && std::isinf(hi_ref - fv)) ? 999999999 : margin(hi_ref - fv, scale);
+    if (defd && fv == lo_ref) mlo = 0;      // inf - inf
+    if (defd && fv == hi_ref) mhi = 0;
+    char b[200];
+    snprintf(b, sizeof b, "%s{\"x\":\"%.17g\",\"f\":\"%.17g\",\"lo\":%ld,\"hi\":%ld,\"isint\":%s,\"defd\":%s}", i ? "," : "", x, fv, mlo, mhi,
+             (std::isfinite(fv) && std::floor(fv) == fv) ? "true" : "false", defd ? "true" : "false");
+    s += b;
+  }
+  s += "]";
+  fprintf(out, "{\"e\":\"Res\",\"id\":%ld,\"kind\":\"%s\",\"var\":%d,\"lb\":%s,\"ub\":%s,\"int\":%s,\"xlo\":%s,\"xhi\":%s,\"samples\":%s}\n", id, kind,
+          alias >= 0 ? alias : 0, verif::jnum(lb).c_str(), verif::jnum(ub).c_str(), isint ? "true" : "false",
+          verif::jnum(xlo).c_str(), verif::jnum(xhi).c_str(), s.c_str());
+}
+
 int main(int argc, char **argv) {
   if (argc < 3) { fprintf(stderr, "usage: h_bounds <cases.txt> <out.ndjson>\n"); return 2; }
   std::ifstream in(argv[1]);
@@ -68,6 +123,11 @@ int main(int argc, char **argv) {
         args.push_back((int)cvt.AddVar(lb, ub, isint ? var::INTEGER : var::CONTINUOUS));
       }
       g_args = args;
+      bool aint = false;
+      {
+        std::istringstream s2(line); long i2; std::string t2; int n2; s2 >> i2 >> t2 >> n2;
+        if (n2 >= 1) { rd(s2); rd(s2); int ii; s2 >> ii; aint = ii != 0; }
+      }
       int np; ss >> np;
       std::vector<double> prm;
       for (int i = 0; i < np; ++i) prm.push_back(rd(ss));
@@ -86,6 +146,25 @@ int main(int argc, char **argv) {
       else if (type == "NumberofVar") report(out, id, cvt, cvt.AssignResult2Args(NumberofVarConstraint(args)), nargs);
       else if (type == "Count") report(out, id, cvt, cvt.AssignResult2Args(CountConstraint(args)), nargs);
       else if (type == "Pow") report(out, id, cvt, cvt.AssignResult2Args(PowConstraint(A1(), DblParamArray1{prm[0]})), nargs);
+#define TR(NAME, CON, F) else if (type == NAME) report_transc(out, id, cvt, cvt.AssignResult2Args(CON), aint, F);
+      TR("Exp", ExpConstraint(A1()), [](double x) { return std::exp(x); })
+      TR("Log", LogConstraint(A1()), [](double x) { return std::log(x); })
+      TR("ExpA", ExpAConstraint(A1(), DblParamArray1{prm[0]}), [&](double x) { return std::pow(prm[0], x); })
+      TR("LogA", LogAConstraint(A1(), DblParamArray1{prm[0]}), [&](double x) { return std::log(x) / std::log(prm[0]); })
+      TR("PowR", PowConstraint(A1(), DblParamArray1{prm[0]}), [&](double x) { return std::pow(x, prm[0]); })
+      TR("Sin", SinConstraint(A1()), [](double x) { return std::sin(x); })
+      TR("Cos", CosConstraint(A1()), [](double x) { return std::cos(x); })
+      TR("Tan", TanConstraint(A1()), [](double x) { return std::tan(x); })
+      TR("Asin", AsinConstraint(A1()), [](double x) { return std::asin(x); })
+      TR("Acos", AcosConstraint(A1()), [](double x) { return std::acos(x); })
+      TR("Atan", AtanConstraint(A1()), [](double x) { return std::atan(x); })
+      TR("Sinh", SinhConstraint(A1()), [](double x) { return std::sinh(x); })
+      TR("Cosh", CoshConstraint(A1()), [](double x) { return std::cosh(x); })
+      TR("Tanh", TanhConstraint(A1()), [](double x) { return std::tanh(x); })
+      TR("Asinh", AsinhConstraint(A1()), [](double x) { return std::asinh(x); })
+      TR("Acosh", AcoshConstraint(A1()), [](double x) { return std::acosh(x); })
+      TR("Atanh", AtanhConstraint(A1()), [](double x) { return std::atanh(x); })
+#undef TR
       else if (type == "PL") {
         // prm = x1 y1 x2 y2 ...
         std::vector<double> x, y;
